@@ -11,6 +11,43 @@ NOTE = ("Trusted base: go/types, golang.org/x/tools v0.29.0 (go/packages, go/cfg
 
 # property -> (technique, text, design_ref)
 CLAIMED = {
+
+    "C01": ("static analysis: who-may-write/who-may-call over the type-checked program, lifetime-switch case regions, condition-fact dominance in eager creation, key-literal completeness, family fan-out agreement",
+            "Decides the structural conditions singleton-ness rests on for every path and call site: the table has one writer, the singleton clause of resolution cannot construct, constructors run only from three call sites under the right guards, Build returns only after a checked eager creation over the topological order, the graph sees every dependency, nothing memoises outside setInstance. One genuine defect (aliases, D1) is a recorded known finding. Invocation counts and pointer identity are not decided.",
+            "DESIGN.md §4 C01"),
+    "C02": ("static analysis: who-may-write the scoped cache and isolation of caches, cache-lookup dominance in the scoped clause, must-pass-through of setInstance, initializer-pass counting, atomicity idiom check, lifetime-validation rules",
+            "Decides that the cache is filled only by the Scoped clause, is fresh per scope and reached only through the receiver; that construction happens only on a miss of the resolved key and always passes setInstance; that every scope handed out ran its initializers exactly once; and that no long-lived service can capture a scoped one. The non-atomic miss/fill pair (D2) is a recorded known finding.",
+            "DESIGN.md §4 C02"),
+    "C03": ("static analysis: case-region event analysis of the transient clauses, no-store census of resolution entry points, record-confinement (lockset) of invoker/analysis records",
+            "Freshness of transients is decided as the absence, on every path, of any cache read or write in the transient clauses, of any memo in the entry points (including group resolution), and of any per-call state in objects shared between invocations.",
+            "DESIGN.md §4 C03"),
+    "C04": ("static analysis: value-flow of the constructor operand to reflect.Value.Call, identity-carrier checks (Pointer() keys), sibling agreement of the four field walkers and two resolvers, order/loop-shape checks, key-literal completeness",
+            "Decides the structural side of wiring fidelity: which function value is called, that analysis (graph edges, registrations) and runtime walks of a struct agree field by field, that dispatch by group/name/plain has one priority, that order never depends on a map, and that identities are never truncated. Fan-out lookups that ignore name/group (D4) are recorded known findings.",
+            "DESIGN.md §4 C04"),
+    "C05": ("static analysis: must-pass-through of the validation pipeline before provider allocation, loop-completeness of graph filling and of the cycle search, group-link dominance, cause preservation",
+            "Exactness of cycle detection needs every descriptor and every dependency in the graph, group placeholders linked before each search, a search that starts everywhere and follows every edge, and a typed error that survives wrapping; these are decided on all paths. Correctness of the DFS on all graphs is value-level and not decided.",
+            "DESIGN.md §4 C05"),
+    "C06": ("static analysis: group-link dominance, creation-loop shape, dirty-flag must-analysis of graph mutators, fill-before-check ordering of the lifetime table, unconditional validation steps",
+            "Order-independence is decided through its structural causes: no verdict is computed while a table is still being filled, every validation step runs on every path, creation follows the sorted slice, caches cannot go stale.",
+            "DESIGN.md §4 C06"),
+    "C07": ("static analysis: dominance of lifetime validation, exemption census (only Lifetime==Scoped; never Optional, followed through helpers), loop-exit discipline, group-keyed lookup, condition facts at the conflict exit",
+            "The transient rule on which transitive soundness rests, the completeness of the check over registrations and dependencies, and the exact trigger of the conflict are decided for every path of the validation code.",
+            "DESIGN.md §4 C07"),
+    "C08": ("static analysis: dominance of the presence check, condition-fact analysis (with predicate summaries of boolean helpers) of its error exit, ordering of root-scope initializers after eager creation",
+            "Both directions are decided structurally: the rejection direction as an unconditional, lifetime-independent membership test by (Type, Key); the acceptance direction as facts that must hold at the error exit (non-optional, non-group, not a built-in).",
+            "DESIGN.md §4 C08"),
+    "C16": ("static analysis: event dataflow (must and may) on the per-request function of each integration with branch-edge facts, sibling comparison across the five, source-level framework lemma for fasthttp, record confinement",
+            "Every exit path of the per-request function is covered, which no finite request sequence can do: creation failure, middleware failure at any position, normal return, and (through the deferred close or the fasthttp lemma) panics.",
+            "DESIGN.md §4 C16"),
+    "C17": ("static analysis: three-view write consistency, duplicate-test dominance with the infallible-insert idiom, may-analysis of error exits after registry writes, freshness of containers handed to the provider, lockset on the collection",
+            "Exactness and atomicity of the registry are decided as path properties of the registration and removal code; the snapshot as an aliasing property of doBuild.",
+            "DESIGN.md §4 C17"),
+    "C18": ("static analysis: exact-value check of the built-in switch, resolver-operand check, reaching-definition analysis of the context chain, key-type use census, reserved-test dominance",
+            "Scope-correctness of the built-ins and of context linkage is a matter of which expression flows where; that is decided exactly, for all paths, from the source.",
+            "DESIGN.md §4 C18"),
+    "C19": ("static analysis: dirty-flag and degree-recomputation must-analysis over every exported mutator, origin-sensitive rollback check, lockset on the graph",
+            "The three clauses the statement singles out (stale caches, degree recomputation, rollback of a rejected add) plus locking are decided on all paths; agreement of the queries with a reference digraph is value-level and explicitly not decided.",
+            "DESIGN.md §4 C19"),
     "C09": ("static analysis: must-hold lockset dataflow over go/cfg with interprocedural entry locksets, "
             "guarded-by table, lock-order graph, typestate of Close-reset tables",
             "Every access to every shared field on every path is checked against its synchronisation discipline; "
